@@ -1055,3 +1055,45 @@ MUTANTS = [
     ("noqa_off_still_masks", "sqlfluff/core/linter/linter.py", "        if not config.get(\"disable_noqa\") or disable_noqa_except:\n", "        if True:\n"),
     ("get_violations_masks_unfiltered", "sqlfluff/core/linter/linted_file.py", "            violations = [v for v in violations if not v.ignore]\n            # Ignore any rules in the ignore mask\n            if self.ignore_mask:", "            violations = [v for v in violations if not v.ignore]\n        if True:\n            # Ignore any rules in the ignore mask\n            if self.ignore_mask:"),
 ]
+
+
+def bounded_from_source_lines(tier, seed):
+    """IgnoreMask.from_source (raw-source scan used when there is no parse tree): a directive's line number is one more
+    than the number of '\\n' before its comment -- the same line notion violations use (C31) -- for sources whose earlier
+    lines contain every other Unicode line-boundary character."""
+    import random
+    from sqlfluff.core import FluffConfig, Linter
+    from sqlfluff.core.dialects import dialect_selector
+    from sqlfluff.core.rules.noqa import IgnoreMask as IM
+    rng = random.Random(seed)
+    seps = ["\x0b", "\x0c", "\x1c", "\x1d", "\x1e", "\x85", " ", " ", "\r", "\t", " "]
+    dialect = dialect_selector("ansi")
+    n = 4000 if tier == "thorough" else 600
+    ev, nontriv, failed, samples = 0, 0, [], []
+    for _ in range(n):
+        lines = []
+        for _k in range(rng.randint(1, 4)):
+            body = "".join(rng.choice(["a", " ", "1"] + seps) for _ in range(rng.randint(0, 5)))
+            lines.append("select " + body + (" -- c" + rng.choice(seps) + "x" if rng.random() < 0.4 else ""))
+        at = rng.randrange(len(lines))
+        lines[at] = lines[at].split(" -- ")[0] + " -- noqa: LT01"
+        src = "\n".join(lines) + ("\n" if rng.random() < 0.5 else "")
+        ev += 1
+        mask, _errs = IM.from_source_with_dialect(src, dialect, {"LT01": {"LT01"}})
+        want = 1 + src[: src.index("-- noqa")].count("\n")
+        got = [d.line_no for d in mask._ignore_list]
+        nontriv += 1 if any(s in src for s in seps[:9]) else 0
+        if len(samples) < 3:
+            samples.append({"source": src, "directive_lines": got})
+        if want not in got or len(got) != 1:
+            if not failed:
+                failed.append({"name": "C20/front-end/from_source-line-numbers", "id": "C20/front-end/from_source-line-numbers",
+                               "kind": "bounded", "status": "failed", "function": "sqlfluff.core.rules.noqa:IgnoreMask.from_source",
+                               "detail": {"source": src, "expected_line": want, "observed_lines": got}, "reproduced": True})
+    return {"name": "from_source-line-numbers", "bound": f"{n} random sources of <= 4 lines with exotic separators",
+            "rule": "non-trivial = contains a non-LF line-boundary character", "evaluations": ev,
+            "distinct_nontrivial": nontriv, "samples": samples, "failed": failed}
+
+
+BOUNDED.append(bounded_from_source_lines)
+SHARDS["sqlfluff.core.rules.noqa:IgnoreMask._ignore_masked_violations_line_range"] = 12
